@@ -133,6 +133,9 @@ pub(crate) fn add_str_get<W, R, T>(
             let s = to_primitive!(a0, String);
             let i = to_primitive!(a1, Int);
             let Some(i) = if i.is_negative() { Cow::Owned(i + s.len()) } else { Cow::Borrowed(i) }.to_usize() else { xraise!(Err(ManagedXError::new("index too large",rt)?)) };
+            if i >= s.len() {
+                return xerr(ManagedXError::new("index out of bounds", rt)?);
+            }
             Ok(ManagedXValue::new(XValue::String(Box::new(s.substring(i, Some(i + 1)))), rt)?.into())
         }),
     )
@@ -164,10 +167,15 @@ pub(crate) fn add_str_find<W, R, T>(
                     Some(i) => i,
                 },
             };
+            if start_ind > string.len() {
+                return xerr(ManagedXError::new("index out of bounds", rt)?);
+            }
             let haystack = string.substr(start_ind, None);
+            // str::find gives a byte offset inside the haystack; the result is a character index of the string
+            let byte_offset = string.bytes() - haystack.len();
             let found_idx = haystack
                 .find(needle.as_str())
-                .map(|i| ManagedXValue::new(XValue::Int((i + start_ind).into()), rt.clone()))
+                .map(|i| ManagedXValue::new(XValue::Int(string.char_index_of_byte(i + byte_offset).into()), rt.clone()))
                 .transpose()?;
             Ok(manage_native!(XOptional { value: found_idx }, rt))
         }),
@@ -201,9 +209,10 @@ pub(crate) fn add_str_rfind<W, R, T>(
                 }),
             };
             let haystack = string.substr(0, end_ind);
+            // str::rfind gives a byte offset; the result is a character index
             let found_idx = haystack
                 .rfind(needle.as_str())
-                .map(|i| ManagedXValue::new(XValue::Int(i.into()), rt.clone()))
+                .map(|i| ManagedXValue::new(XValue::Int(string.char_index_of_byte(i).into()), rt.clone()))
                 .transpose()?;
             Ok(manage_native!(XOptional { value: found_idx }, rt))
         }),
@@ -225,7 +234,7 @@ pub(crate) fn add_str_substring<W, R, T>(
             let raw_end = to_primitive!(a2, Int);
             let raw_end = if raw_end.is_negative() { Cow::Owned(raw_end + string.len()) } else { Cow::Borrowed(raw_end) };
             let Some(end) = raw_end.to_usize() else { return xerr(ManagedXError::new("index out of bounds", rt)?); };
-            if end < start { return xerr(ManagedXError::new("index out of bounds", rt)?); }
+            if end < start || start > string.len() { return xerr(ManagedXError::new("index out of bounds", rt)?); }
             if start == 0 && end == string.len(){
                 return Ok(a0.into());
             }
